@@ -5,6 +5,7 @@ from __future__ import annotations
 import ast
 
 from sa.astutil import (
+    stores,
     is_truthy_test,
     knows,
     only_knows,
@@ -675,6 +676,12 @@ def r7_yaml_equivalence(ctx):
             star = [k for k in cl.keywords if k.arg is None]
             ok = call_name(cl).endswith(clsname) and not cl.args and len(star) == 1 and dotted(star[0].value) == p and len(cl.keywords) == 1
         ctx.check(ok, f.qual, f"returns {clsname}(**{p})" if ok else f"does not construct {clsname} by keywords from the mapping", where=f, node=rets[0] if rets else f.node)
+    # to_model_function hands the YAML mapping over as it is (an explicit `null` argument stays None)
+    for st_, t_ in stores(tm.node, lambda t_: isinstance(t_, ast.Subscript) and dotted(t_.value) == tm.params[0]):
+        ctx.fail(tm.qual + "#rewrite", f"the model mapping is rewritten before the ModelFunction is built: {norm(st_)[:70]} (arguments written in the file no longer reach the model as written)", where=tm, node=st_)
+    for c_ in calls_in(tm.node):
+        if isinstance(c_.func, ast.Attribute) and dotted(c_.func.value) == tm.params[0] and c_.func.attr in ("pop", "update", "setdefault", "clear", "popitem", "__setitem__", "__delitem__"):
+            ctx.fail(tm.qual + "#rewrite", f"the model mapping is modified ({norm(c_)[:60]}) before the ModelFunction is built", where=tm, node=c_)
     # the per-key rewrite in to_pipeline stores under the key it read
     p = tp.params[0]
     for lp in loops_in(tp.node):
